@@ -849,6 +849,16 @@ def oracle(c, o):
     if o["res"] == "err":
         if not (pre["nodes"] or pre["edges"]) or request:
             return Failure(c, o, f"geff_to_csv raised {o['exc']}: {o.get('msg')}", {**tags, "why": "raises"})
+        # a refused export (either file exists, overwrite not requested): FileExistsError, and the target is what it was -- no file
+        # created, none removed (C06: refusal without mutation; before the repair an existing edges file let the nodes file be written)
+        if o["exc"] != "FileExistsError":
+            return Failure(c, o, f"refused export raised {o['exc']} instead of FileExistsError", {**tags, "why": "refusal-class"})
+        for k in ("nodes", "edges"):
+            if not pre[k] and o[k] != "absent":
+                return Failure(c, o, f"refused export created the {k} csv beside the existing {'edges' if k == 'nodes' else 'nodes'} csv",
+                               {**tags, "why": "refusal-mutates"})
+        if o["new_files"]:
+            return Failure(c, o, f"refused export created {o['new_files']}", {**tags, "why": "refusal-mutates"})
         return None
     # the call reported success: both tables must be on disk under the documented names and parse back
     for key, idcols, k in (("nprops", idn, "nodes"), ("eprops", ide, "edges")):
